@@ -422,8 +422,15 @@ class Ctx:
         ev = {"property_id": self.id, "tier": self.tier, "seed": self.seed, "level": self.level,
               "coverage": cov, "assumptions": list(extra_assumptions) + self.assumptions,
               "wall_s": round(time.time() - self.t0, 2), "violations": len(self.violations)}
-        os.makedirs(os.path.join(VERIF, "evidence"), exist_ok=True)
-        with open(os.path.join(VERIF, "evidence", self.id + ".json"), "w") as f:
+        # evidence/<id>.json is only ever written by a run against /repo itself for a property of properties.jsonl;
+        # runs against a scratch copy (VERIF_REPO, used to evaluate seeded changes) and auxiliary checks (e.g. C11fc)
+        # leave their evidence in the work area
+        edir = os.path.join(VERIF, "evidence")
+        if os.path.realpath(REPO) != "/repo" or not re.fullmatch(r"C\d\d", self.id):
+            edir = os.path.join(WORK, "evidence")
+        ev["repo"] = REPO
+        os.makedirs(edir, exist_ok=True)
+        with open(os.path.join(edir, self.id + ".json"), "w") as f:
             json.dump(ev, f, indent=1, default=str)
         self.log("done: %d violation(s), %d known finding(s), wall %.1fs" % (len(self.violations), len(self.known_hits), time.time() - self.t0))
         return 1 if self.violations else 0
